@@ -73,7 +73,9 @@ pub enum Act { Step(usize), Crash(usize), Timeout(usize) }
 #[derive(Clone, Debug, PartialEq)]
 enum PState { At(String), Done(String), Killed }
 
-struct Probe { child: Child, req: std::fs::File, ack: PathBuf, state: PState, history: Vec<String> }
+/// `req` and `ack` are FIFOs the explorer keeps open read+write for the whole life of the probe: the probe's open() never
+/// blocks or sees a writer come and go, and a read on `ack` blocks until the explorer has written the answer.
+struct Probe { child: Child, req: std::fs::File, ack: std::fs::File, state: PState, history: Vec<String> }
 
 struct World<'a> { env: &'a Env, dir: PathBuf, probes: Vec<Probe>, crashes: usize, timeouts: usize, findings: Vec<(String, String)>, recompilers: usize }
 
@@ -113,13 +115,22 @@ impl<'a> World<'a> {
     fn spawn(&mut self, i: usize) {
         let prefix = self.dir.join(format!("ctl/p{}", i));
         let (reqp, ackp) = (PathBuf::from(format!("{}.req", prefix.display())), PathBuf::from(format!("{}.ack", prefix.display())));
+        let _ = std::fs::remove_file(&reqp); let _ = std::fs::remove_file(&ackp);
         mkfifo(&reqp); mkfifo(&ackp);
         let req = std::fs::OpenOptions::new().read(true).write(true).custom_flags(libc::O_NONBLOCK).open(&reqp).unwrap();
-        let child = Command::new(&self.env.exe).arg("loader-probe").arg(self.dir.join("src")).arg(self.dir.join("lib"))
+        let ack = std::fs::OpenOptions::new().read(true).write(true).open(&ackp).unwrap();
+        let mut cmd = if let Ok(d) = std::env::var("VF_C19_STRACE") {
+            static N: std::sync::atomic::AtomicUsize = std::sync::atomic::AtomicUsize::new(0);
+            let k = N.fetch_add(1, std::sync::atomic::Ordering::Relaxed);
+            let mut c = Command::new("strace");
+            c.arg("-f").arg("-tt").arg("-o").arg(format!("{}/st-{}-{}.txt", d, std::process::id(), k)).arg("-e").arg("trace=openat,read,write,close,exit_group").arg(&self.env.exe);
+            c
+        } else { Command::new(&self.env.exe) };
+        let child = cmd.arg("loader-probe").arg(self.dir.join("src")).arg(self.dir.join("lib"))
             .env("TS_VERIF_CTL", &prefix).env("XDG_CACHE_HOME", self.dir.join("cache")).env("HOME", &self.dir)
             .env("CC", &self.env.fakecc).env("VF_C19_PREBUILT", &self.env.prebuilt).env_remove("CFLAGS").env_remove("VF_CRASH_FILE")
             .stdout(Stdio::piped()).stderr(Stdio::null()).process_group(0).spawn().expect("spawn loader-probe");
-        let mut p = Probe { child, req, ack: ackp, state: PState::At("spawned".into()), history: vec![] };
+        let mut p = Probe { child, req, ack, state: PState::At("spawned".into()), history: vec![] };
         Self::wait_next(&mut p);
         let st = p.state.clone();
         self.note_state(i, &st);
@@ -132,7 +143,7 @@ impl<'a> World<'a> {
         let mut buf = Vec::new();
         loop {
             let mut tmp = [0u8; 256];
-            match p.req.read(&mut tmp) { Ok(n) if n > 0 => { buf.extend_from_slice(&tmp[..n]); } _ => {} }
+            match p.req.read(&mut tmp) { Ok(n) if n > 0 => { if std::env::var("VF_C19_TRACE").is_ok() { eprintln!("[{}] pid {} req bytes {:?}", std::process::id(), p.child.id(), String::from_utf8_lossy(&tmp[..n])); } buf.extend_from_slice(&tmp[..n]); } _ => {} }
             if let Some(pos) = buf.iter().position(|&b| b == b'\n') {
                 let name = String::from_utf8_lossy(&buf[..pos]).trim().to_string();
                 p.history.push(name.clone());
@@ -151,16 +162,16 @@ impl<'a> World<'a> {
     }
 
     fn answer(&mut self, i: usize, ans: &str) {
-        // open the answer FIFO without blocking forever: the probe (or the compiler wrapper) opens it for reading right after
-        // it has written its request; ENXIO means it is not there yet
-        let t0 = std::time::Instant::now();
-        loop {
-            match std::fs::OpenOptions::new().write(true).custom_flags(libc::O_NONBLOCK).open(&self.probes[i].ack) {
-                Ok(mut f) => { let _ = writeln!(f, "{}", ans); break; }
-                Err(_) if t0.elapsed().as_secs() < 10 => std::thread::sleep(std::time::Duration::from_micros(200)),
-                Err(_) => { self.findings.push(("ENGINE-probe-not-listening".into(), format!("loader {} never opened its answer channel", i))); break; }
-            }
+        // One answer per reported point, written to the FIFO the explorer holds open: the probe (or the compiler wrapper)
+        // blocks in read() until it arrives. (An earlier version opened the FIFO per answer; under load the probe could reach
+        // its next point before that descriptor was closed, read end-of-file and run on unscheduled.)
+        if !matches!(self.probes[i].state, PState::At(_)) {
+            self.findings.push(("ENGINE-answer-to-finished-probe".into(), format!("loader {} is {:?} and cannot be answered", i, self.probes[i].state)));
+            return;
         }
+        let r = self.probes[i].ack.write_all(format!("{}\n", ans).as_bytes());
+        if std::env::var("VF_C19_TRACE").is_ok() { eprintln!("[{}] pid {} answered {} ({:?}) at state {:?}", std::process::id(), self.probes[i].child.id(), ans, r, self.probes[i].state); }
+        if let Err(e) = r { self.findings.push(("ENGINE-answer-write-failed".into(), format!("loader {}: {}", i, e))); }
         Self::wait_next(&mut self.probes[i]);
         let st = self.probes[i].state.clone();
         self.note_state(i, &st);
@@ -338,4 +349,35 @@ pub fn probe_main(src: &str, lib: &str) {
     }
 }
 
-pub fn replay(case: &Value) -> Vec<String> { vec![format!("rerun ./vf check C19 quick (case {})", case)] }
+fn parse_init(s: &str) -> Option<Init> {
+    // "Init { lib: \"stale\", lock: true, temp: false }"
+    let lib = if s.contains("\"stale\"") { "stale" } else if s.contains("\"fresh\"") { "fresh" } else if s.contains("\"none\"") { "none" } else { return None };
+    Some(Init { lib, lock: s.contains("lock: true"), temp: s.contains("temp: true") })
+}
+
+fn parse_act(s: &str) -> Option<Act> {
+    let n: usize = s.trim_end_matches(')').split('(').nth(1)?.parse().ok()?;
+    if s.starts_with("Step") { Some(Act::Step(n)) } else if s.starts_with("Crash") { Some(Act::Crash(n)) } else if s.starts_with("Timeout") { Some(Act::Timeout(n)) } else { None }
+}
+
+/// Re-execute one recorded schedule against real loader processes, outside the explorer.
+pub fn replay(case: &Value) -> Vec<String> {
+    let case = if case.get("kind").and_then(|k| k.as_str()) == Some("crash") { &case["case"] } else { case };
+    let (Some(init), Some(sched)) = (case["initial"].as_str().and_then(parse_init), case["schedule"].as_array()) else { return vec![format!("not a schedule case: {}", case)] };
+    let schedule: Vec<Act> = sched.iter().filter_map(|a| a.as_str().and_then(parse_act)).collect();
+    let n = case["loaders"].as_u64().unwrap_or(2) as usize;
+    let env = match setup_env(9000) { Ok(e) => e, Err(e) => return vec![format!("ENGINE setup failed: {}", e)] };
+    let mut w = World::new(&env, &init, n, "replay");
+    for (k, &a) in schedule.iter().enumerate() {
+        let en = w.enabled(usize::MAX, usize::MAX);
+        if !en.contains(&a) { w.shutdown(); let _ = std::fs::remove_dir_all(&env.root); return vec![format!("ENGINE replay diverged: action #{} {:?} is not enabled (enabled: {:?})", k, a, en)]; }
+        w.apply(a);
+        println!("{:?} -> {}", a, w.key());
+    }
+    let mut findings = std::mem::take(&mut w.findings);
+    if w.terminal() && (w.crashes > 0 || init.lock) { aftermath(&mut w, &mut findings); println!("aftermath -> {}", w.key()); }
+    findings.extend(std::mem::take(&mut w.findings));
+    w.shutdown();
+    let _ = std::fs::remove_dir_all(&env.root);
+    findings.into_iter().map(|(f, m)| format!("{}: {}", f, m)).collect()
+}
